@@ -1,7 +1,7 @@
 """C20 driver: runs the real imperative/ code (com.py, expr.py, parser2.py, imp.py, parser.py) and logs events.
 
 modes
-  com <vectors.ndjson> <out.ndjson> <seed> <nrandom> <maxnest> <twice_every>
+  com <vectors.ndjson> <out.ndjson> <seed> <nrandom> <maxnest> <twice_every> [<tid_base>]
         (a) for every integer (program, pre, post) vector and for <nrandom> seeded random programs: build the real
             Com / Expr objects, c.pre = [pre]; c.compute_wp(post); c.get_lines(vars); log the computed condition trees
             (structural projection of the Expr objects held in the pre/post chains), the printed strings, the strings
@@ -10,6 +10,7 @@ modes
   imp <triples.ndjson> <sem.ndjson> <out.ndjson> <seed> <nsem> <nvcg> <nrandom>
         (b) natural-number programs as HOL terms: imp.eval_Sem on (program, initial state) + theory.check_proof;
             imp.vcg_norm on Valid P c Q + theory.check_proof
+  one <event.json> <out.ndjson>     re-run the input of one recorded event (replay)
 No verdict is computed here: only projection of objects to JSON trees in the encoding of spec/C20_HoareSem.tla.
 """
 import json
@@ -314,7 +315,7 @@ class Gen:
         r = self.r
         c = r.randint(0, 3)
         v, w = (["v", "x"], ["v", "y"]) if r.random() < 0.5 else (["v", "y"], ["v", "x"])
-        forms = [["true"], ["<=", ["n", 0], v], ["<=", v, ["n", c]], ["==", ["+", v, w], ["n", c]], ["<=", v, w],
+        forms = ([["true"]] if self.nat else [["<=", v, ["n", 2]]]) + [["<=", ["n", 0], v], ["<=", v, ["n", c]], ["==", ["+", v, w], ["n", c]], ["<=", v, w],
                  ["not", ["<", v, ["n", 0]]], ["==", v, ["n", c]]]
         return r.choice(forms)
 
@@ -337,15 +338,35 @@ class Gen:
             return ["seq", self.com(d - 1, box), self.com(d - 1, box)]
         if k == "if":
             return ["if", self.guard(), self.com(d - 1, box), self.com(d - 1, box)]
-        return ["while", self.guard(), ["and", box, self.assertion()], self.com(d - 1, box)]
+        return ["while", self.guard(), boxed(box, self.assertion()), self.com(d - 1, box)]
+
+
+def lit(k):
+    return ["neg", ["n", -k]] if k < 0 else ["n", k]
+
+
+def box_atoms(lo, hi, need_lower):
+    res = []
+    for x in VARS:
+        if need_lower:
+            res.append(["<=", lit(lo), ["v", x]])
+        res.append(["<=", ["v", x], lit(hi)])
+    return res
+
+
+def and_chain(atoms):
+    return atoms[0] if len(atoms) == 1 else ["and", atoms[0], and_chain(atoms[1:])]
 
 
 def box_cond(lo, hi, need_lower):
-    def bx(x):
-        if need_lower:
-            return ["and", ["<=", ["n", lo], ["v", x]], ["<=", ["v", x], ["n", hi]]]
-        return ["<=", ["v", x], ["n", hi]]
-    return ["and", bx("x"), bx("y")]
+    return and_chain(box_atoms(lo, hi, need_lower))
+
+
+def boxed(box, a):
+    """right-nested chain: box atoms, then the assertion"""
+    if box[0] == "and":
+        return ["and", box[1], boxed(box[2], a)]
+    return ["and", box, a]
 
 
 IBOX = box_cond(-2, 2, True)
@@ -387,11 +408,11 @@ def computed_vcs(c):
     return res
 
 
-def observe(c, vars_):
+def observe(c, vars_, cross=False):
     """After compute_wp: the computed trees, what the user is shown, and what is parsed back."""
     from imperative.parser2 import cond_parser
     lines = [l for l in c.get_lines(vars_) if l["ty"] == "vc"]
-    strs = c.get_vcs(vars_)
+    strs = c.get_vcs(vars_) if cross else [l["str"] for l in lines]
     trees = computed_vcs(c)
     vcs = []
     for i, l in enumerate(lines):
@@ -416,7 +437,7 @@ def run_com(prog, pre, post, mode, tid, origin):
         P, Q = dec_expr(pre), dec_expr(post)
         c.pre = [P]
         wp = c.compute_wp(Q)
-        vcs, ntrees, same = observe(c, vars_)
+        vcs, ntrees, same = observe(c, vars_, cross=(tid % 8 == 0))
         if mode == "twice":
             ev["first"] = [v["t"] for v in vcs]
             wp = c.compute_wp(Q)
@@ -426,7 +447,7 @@ def run_com(prog, pre, post, mode, tid, origin):
         ev["ntrees"] = ntrees
         ev["outcome"] = "ok" if same else "error:get_vcs"
         # the program as shown to the user and read back (app/imperative.py round trip)
-        shown = "\n".join(c.print_com(vars_))
+        shown = "\n".join(dec_com(prog).print_com(vars_))
         ev["shown"] = shown
         try:
             ev["rt"], ev["rtok"] = enc_com(com_parser.parse(shown)), "ok"
@@ -437,11 +458,11 @@ def run_com(prog, pre, post, mode, tid, origin):
     return ev
 
 
-def main_com(vec_path, out_path, seed, nrandom, maxnest, twice_every):
+def main_com(vec_path, out_path, seed, nrandom, maxnest, twice_every, tid_base=0):
     from logic import basic
     basic.load_theory("hoare")
-    rnd = random.Random(seed * 7919 + 20)
-    tid = 0
+    rnd = random.Random(seed * 7919 + 20 + tid_base)
+    tid = tid_base
     n = 0
     with open(out_path, "w") as out:
         def emit(ev):
@@ -463,7 +484,7 @@ def main_com(vec_path, out_path, seed, nrandom, maxnest, twice_every):
         g = Gen(rnd)
         for i in range(nrandom):
             prog = g.com(rnd.randint(1, maxnest), IBOX)
-            pre = ["and", IBOX, g.assertion()]
+            pre = boxed(IBOX, g.assertion())
             post = g.assertion()
             tid += 1
             emit(run_com(prog, pre, post, "twice" if i % 10 == 9 else "fresh", tid, "random"))
@@ -606,6 +627,25 @@ def build_prog(hb, prog):
         return hb.c(prog), "direct"
 
 
+class Timeout(Exception):
+    pass
+
+
+def _alarm(signum, frame):
+    raise Timeout()
+
+
+def limited(seconds, f, *args):
+    """run f(*args) under a wall-clock limit (inputs whose symbolic evaluation explodes are simply not examined)"""
+    import signal
+    signal.signal(signal.SIGALRM, _alarm)
+    signal.setitimer(signal.ITIMER_REAL, seconds, 1.0)     # re-fires every second in case something swallows it
+    try:
+        return f(*args)
+    finally:
+        signal.setitimer(signal.ITIMER_REAL, 0)
+
+
 def run_sem(hb, prog, s0, tid, origin):
     from imperative import imp
     from kernel import theory
@@ -616,7 +656,7 @@ def run_sem(hb, prog, s0, tid, origin):
     st = hb.state(s0)
     ev["st"] = enc_hol_state(st)
     try:
-        pt = imp.eval_Sem(c, st)
+        pt = limited(10, imp.eval_Sem, c, st)
         ev["outcome"] = "ok"
         ev["goal"] = enc_sem(pt.prop)
         ev["hyps"] = len(pt.hyps)
@@ -627,7 +667,7 @@ def run_sem(hb, prog, s0, tid, origin):
         ev["outcome"] = "error:" + type(ex).__name__
         return ev
     try:
-        th = theory.check_proof(pt.export())
+        th = limited(30, theory.check_proof, pt.export())
         ev["chk"] = "accepted"
         ev["chk_goal"] = enc_sem(th.prop)
         ev["chk_hyps"] = len(th.hyps)
@@ -639,13 +679,13 @@ def run_sem(hb, prog, s0, tid, origin):
 def run_vcg(hb, prog, pre, post, tid, origin):
     from imperative import imp
     from kernel import theory
-    ev = {"tid": tid, "kind": "vcg", "origin": origin, "vprog": prog, "key": "vcg:%s" % digest([prog, pre, post]),
+    ev = {"tid": tid, "kind": "vcg", "origin": origin, "vprog": prog, "vpre": pre, "vpost": post, "key": "vcg:%s" % digest([prog, pre, post]),
           "vcs": [], "concl": [UNK, UNK, UNK], "chk": "none", "chk_vcs": [], "chk_concl": [UNK, UNK, UNK], "chk_hyps": 0}
     c, ev["via"] = build_prog(hb, prog)
     goal = imp.Valid(hb.natFunT)(hb.pred(pre), c, hb.pred(post))
     ev["pre"], ev["prog"], ev["post"] = enc_valid(goal)
     try:
-        pt = imp.vcg_norm(hb.natFunT, goal)
+        pt = limited(30, imp.vcg_norm, hb.natFunT, goal)
         As, concl = pt.prop.strip_implies()
         ev["outcome"] = "ok"
         ev["vcs"] = [enc_hol_vc(A) for A in As]
@@ -658,7 +698,7 @@ def run_vcg(hb, prog, pre, post, tid, origin):
         ev["outcome"] = "error:" + type(ex).__name__
         return ev
     try:
-        th = theory.check_proof(pt.export())
+        th = limited(60, theory.check_proof, pt.export())
         As, concl = th.prop.strip_implies()
         ev["chk"] = "accepted"
         ev["chk_vcs"] = [enc_hol_vc(A) for A in As]
@@ -676,7 +716,7 @@ def sample(rnd, items, n):
     return [items[i] for i in idx]
 
 
-def main_imp(trip_path, sem_path, out_path, seed, nsem, nvcg, nrandom):
+def main_imp(trip_path, sem_path, out_path, seed, nsem, nvcg, nrandom, tid_base=5000000):
     from logic import basic
     basic.load_theory("hoare")
     from imperative import parser as _p   # noqa: F401  (registers nothing, but loads the grammar once)
@@ -685,7 +725,7 @@ def main_imp(trip_path, sem_path, out_path, seed, nsem, nvcg, nrandom):
     hb = HolBuild()
     trips = [v for v in (json.loads(ln) for ln in open(trip_path) if ln.strip()) if v["dom"] == "nat"]
     sems = [json.loads(ln) for ln in open(sem_path) if ln.strip()]
-    tid = 0
+    tid = tid_base
     with open(out_path, "w") as out:
         def emit(ev):
             out.write(json.dumps(ev, separators=(",", ":")) + "\n")
@@ -693,7 +733,10 @@ def main_imp(trip_path, sem_path, out_path, seed, nsem, nvcg, nrandom):
         for v in sample(rnd, sems, nsem):
             tid += 1
             emit(run_sem(hb, v["prog"], v["s0"], tid, "tlc"))
-        for v in sample(rnd, trips, nvcg):
+        # input selection: half of the sample from the triples the reference generator considers provable
+        good = [v for v in trips if v.get("valid")]
+        rest = [v for v in trips if not v.get("valid")]
+        for v in sample(rnd, good, nvcg // 2) + sample(rnd, rest, nvcg - nvcg // 2):
             tid += 1
             emit(run_vcg(hb, v["prog"], v["pre"], v["post"], tid, "tlc"))
         g = Gen(rnd, nat=True)
@@ -701,17 +744,36 @@ def main_imp(trip_path, sem_path, out_path, seed, nsem, nvcg, nrandom):
             prog = g.com(rnd.randint(1, 3), NBOX)
             tid += 1
             if i % 2 == 0:
-                emit(run_vcg(hb, prog, ["and", NBOX, g.likely_inv() if rnd.random() < 0.6 else g.cond(1)], g.assertion(), tid, "random"))
+                emit(run_vcg(hb, prog, boxed(NBOX, g.likely_inv() if rnd.random() < 0.6 else g.cond(1)), g.assertion(), tid, "random"))
             else:
-                sys.setrecursionlimit(700)
+                sys.setrecursionlimit(400)
                 emit(run_sem(hb, prog, {"x": rnd.randint(0, 3), "y": rnd.randint(0, 3)}, tid, "random"))
                 sys.setrecursionlimit(3000)
+
+
+def main_one(ev_path, out_path):
+    from logic import basic
+    basic.load_theory("hoare")
+    e = json.load(open(ev_path))
+    if e["kind"] == "com":
+        ev = run_com(e["prog"], e["pre"], e["post"], e["mode"], e["tid"], e.get("origin", "replay"))
+    elif e["kind"] == "sem":
+        sys.setrecursionlimit(3000)
+        ev = run_sem(HolBuild(), e["vprog"], e["s0"], e["tid"], e.get("origin", "replay"))
+    else:
+        sys.setrecursionlimit(3000)
+        ev = run_vcg(HolBuild(), e["vprog"], e["vpre"], e["vpost"], e["tid"], e.get("origin", "replay"))
+    with open(out_path, "w") as out:
+        out.write(json.dumps(ev, separators=(",", ":")) + "\n")
 
 
 if __name__ == "__main__":
     mode = sys.argv[1]
     if mode == "com":
-        main_com(sys.argv[2], sys.argv[3], int(sys.argv[4]), int(sys.argv[5]), int(sys.argv[6]), int(sys.argv[7]))
+        main_com(sys.argv[2], sys.argv[3], int(sys.argv[4]), int(sys.argv[5]), int(sys.argv[6]), int(sys.argv[7]),
+                 int(sys.argv[8]) if len(sys.argv) > 8 else 0)
+    elif mode == "one":
+        main_one(sys.argv[2], sys.argv[3])
     elif mode == "imp":
         main_imp(sys.argv[2], sys.argv[3], sys.argv[4], int(sys.argv[5]), int(sys.argv[6]), int(sys.argv[7]), int(sys.argv[8]))
     else:
